@@ -59,6 +59,8 @@ class SubcircuitExpander(Visitor):
         self.measure_def = measure_def
         # Macros whose bodies contained subcircuits, by name
         self.macros = {}
+        # Whether a call in the macro being visited was linked to a rewritten macro
+        self.relinked = False
 
     def visit_default(self, obj):
         """By default we leave all objects alone. Note that the object is not copied."""
@@ -80,8 +82,10 @@ class SubcircuitExpander(Visitor):
         return new_circuit
 
     def visit_Macro(self, macro):
+        self.relinked = False
         new_body = self.visit(macro.body)
-        if new_body == macro.body:
+        # (== does not see which definition a call is linked to)
+        if new_body == macro.body and not self.relinked:
             return macro
         return Macro(macro.name, macro.parameters, new_body)
 
@@ -89,6 +93,7 @@ class SubcircuitExpander(Visitor):
         new_def = self.macros.get(gate.name)
         if new_def is None:
             return gate
+        self.relinked = True
         return GateStatement(new_def, gate.parameters)
 
     def visit_LoopStatement(self, loop):
